@@ -322,6 +322,10 @@ func addRecordToAggregations(grpReq *structs.GroupByRequest, timeHistogram *stru
 					nodeRes.StoreGlobalSearchError(fmt.Sprintf("addRecordToAggregations: Failed to get key for column %v", colKeyIndex), log.ErrorLevel, err)
 					copy(aggsKeyWorkingBuf[aggsKeyBufIdx:], sutils.VALTYPE_ENC_BACKFILL)
 					aggsKeyBufIdx += 1
+				} else if len(rawVal) == 0 {
+					// the column does not exist in this block: the group-by value is null
+					copy(aggsKeyWorkingBuf[aggsKeyBufIdx:], sutils.VALTYPE_ENC_BACKFILL)
+					aggsKeyBufIdx += 1
 				} else {
 					copy(aggsKeyWorkingBuf[aggsKeyBufIdx:], rawVal)
 					aggsKeyBufIdx += len(rawVal)
